@@ -122,11 +122,10 @@ func (p *process) Spawn(
 		return pid, err
 	}
 
+	// the link for options.LinkChild is created by node.spawn before the child
+	// is able to run (and to terminate)
 	if options.LinkChild {
-		// method LinkPID is not allowed to be used in the initialization state,
-		// so we use linking manually.
 		lib.VerifPoint("proc.spawn.linked", pid)
-		p.node.targetManager.AddLink(p.pid, pid)
 	}
 	return pid, err
 }
@@ -157,11 +156,10 @@ func (p *process) SpawnRegister(
 		return pid, err
 	}
 
+	// the link for options.LinkChild is created by node.spawn before the child
+	// is able to run (and to terminate)
 	if options.LinkChild {
-		// method LinkPID is not allowed to be used in the initialization state,
-		// so we use linking manually.
 		lib.VerifPoint("proc.spawn.linked", pid)
-		p.node.targetManager.AddLink(p.pid, pid)
 	}
 	return pid, err
 }
